@@ -159,6 +159,8 @@ def check_c10(A: Analysis) -> Dict[str, Any]:
     d_cancels = [(i, l) for i, l in delivered if isinstance(l, CancelLog)]
     d_execs = [(i, l) for i, l in delivered if isinstance(l, ExecutionLog)]
     d_expire = [(i, l) for i, l in delivered if isinstance(l, ExpirationLog)]
+    rewriting = any(isinstance(v, dict) and (v.get("class") == "OrderMistakeShock" or v.get("rewrite")) for v in A.cfg.values())
+    accepted_volume = {}
     # (a) one OrderLog per accepted order, fields equal to the event's values
     by_key = collections.defaultdict(list)
     for i, l in d_orders:
@@ -170,12 +172,17 @@ def check_c10(A: Analysis) -> Dict[str, Any]:
         if len(recs) != 1:
             raise Violation("C10.order_record_count", f"{len(recs)} OrderLog records for order {o.order_id} on market {o.market_id} (expected exactly 1)")
         i, l = recs[0]
-        want = (o.agent_id, o.is_buy, o.kind, snap["volume"], o.price, o.ttl, o.placed_at)
+        # events may rewrite a pending order (order-mistake shock, price limit rule, user hooks): the record must carry the
+        # values the order was ACCEPTED with.  Side, kind, price and lifetime do not change after acceptance, so the order
+        # object is the ground truth for them; the accepted volume is what the agent returned unless a rewriting event is
+        # configured, in which case it is checked below through "accepted = remaining + fills".
+        want = (o.agent_id, o.is_buy, o.kind, snap["volume"] if not rewriting else l.volume, o.price, o.ttl, o.placed_at)
         got = (l.agent_id, l.is_buy, l.kind, l.volume, l.price, l.ttl, l.time)
         if want != got:
             raise Violation("C10.order_record_fields", f"OrderLog of order {o.order_id}/m{o.market_id} carries {got}, the order says {want}")
         if i < ci:
             raise Violation("C10.order_record_before_submission", "")
+        accepted_volume[id(o)] = l.volume if rewriting else snap["volume"]
     if len(d_orders) != len(A.returned_orders):
         raise Violation("C10.order_record_extra", f"{len(d_orders)} OrderLog records for {len(A.returned_orders)} submitted orders")
     # (b) one CancelLog per accepted cancel, in order
@@ -205,7 +212,7 @@ def check_c10(A: Analysis) -> Dict[str, Any]:
         per_step_tot[(l.market_id, l.time)] += l.volume * l.price
     snap_by_obj = {id(o): snap for o, snap, _ in A.returned_orders}
     for o, snap, _ in A.returned_orders:
-        init = snap["volume"]
+        init = accepted_volume[id(o)]
         got = filled.get((o.market_id, o.order_id), 0)
         if got != init - o.volume:
             raise Violation("C10.fill_records_per_order", f"order {o.order_id}/m{o.market_id}: fill records sum to {got}, the order lost {init - o.volume} "
@@ -242,7 +249,7 @@ def check_c10(A: Analysis) -> Dict[str, Any]:
         if t_e > final_t:
             continue
         key = (o.market_id, o.order_id)
-        left = snap["volume"] - sum(v for t, v in fills_by_order.get(key, []))
+        left = accepted_volume[id(o)] - sum(v for t, v in fills_by_order.get(key, []))
         if left <= 0:
             continue
         if key in cancel_idx:
